@@ -16,6 +16,15 @@ try:
 except Exception as _ex:  # the generator itself broke: same fallback as an unparseable source
     ARCH_GEN_STATUS = "unparsed generator-failed: %s" % str(_ex)[:200]
 
+# round 4: the serde glue (which Visitor method a human readable deserializer reaches, which parser visit_str calls, the
+# infinity tokens and the escape of collect_float_str) is regenerated into coq/gen/SerdeVisitorsGen.v the same way;
+# C19_serde_glue_is_modelled and C19_json_float_ser_roundtrip are proved over the regenerated definitions.
+try:
+    import translate_c19_r4
+    SERDE_GEN_STATUS = translate_c19_r4.generate(core.REPO, os.path.join(core.COQ, "gen"))
+except Exception as _ex:
+    SERDE_GEN_STATUS = "unparsed generator-failed: %s" % str(_ex)[:200]
+
 # a run against a scratch checkout (VERIF_REPO) with the shared Coq tree must not leave its fragment behind
 if os.path.realpath(core.REPO) != os.path.realpath("/repo") and os.path.realpath(core.COQ) == os.path.realpath(os.path.join(core.ROOT, "coq")):
     import atexit
@@ -25,17 +34,26 @@ if os.path.realpath(core.REPO) != os.path.realpath("/repo") and os.path.realpath
             translate_c19_r3.generate("/repo", os.path.join(core.COQ, "gen"))
         except Exception:
             pass
+        try:
+            translate_c19_r4.generate("/repo", os.path.join(core.COQ, "gen"))
+        except Exception:
+            pass
 
     atexit.register(_restore_arch_gen)
 
 
 def extra_phase(tier, seed, exes, oracle):
     word = ARCH_GEN_STATUS.split(" ", 1)[0]
+    word4 = SERDE_GEN_STATUS.split(" ", 1)[0]
     return {
         "evaluations": 0,
-        "hist": {"translator_c19_r3:ArchGen:" + word: 1},
+        "hist": {"translator_c19_r3:ArchGen:" + word: 1, "FRAGMENT:SerdeVisitorsGen:" + word4: 1, "FRAGMENT:ArchGen:" + word: 1},
         "nontrivial": [],
-        "samples": [{"fragment": "coq/gen/ArchGen.v (tools/translate_c19_r3.py from integer/src/arch/mod.rs, <arch>/mod.rs, <arch>/word.rs, generic/add.rs)",
+        "samples": [{"fragment": "coq/gen/SerdeVisitorsGen.v (tools/translate_c19_r4.py from {integer,float,rational}/src/third_party/serde.rs)",
+                     "status": SERDE_GEN_STATUS,
+                     "tied_by": "C19_serde_glue_is_modelled, C19_json_float_ser_roundtrip, C19_json_float_ser_inf + every dej_* / ser_* case in every build"
+                     if word4 == "ok" else "the dej_* / ser_* cases of the correspondence run only (source not parsed; committed copy marked STALE)"},
+                    {"fragment": "coq/gen/ArchGen.v (tools/translate_c19_r3.py from integer/src/arch/mod.rs, <arch>/mod.rs, <arch>/word.rs, generic/add.rs)",
                      "status": ARCH_GEN_STATUS,
                      "tied_by": "C19_arch_word_admissible, C19_arch_force_bits, C19_arch_x86_64_default, C19_arch_add_with_carry, C19_arch_sub_with_borrow + the `config` case in every build"
                      if word == "ok" else "the `config` case of the correspondence run only (source not parsed; committed copy marked STALE)"}],
@@ -54,7 +72,7 @@ CONFIGS = ["default", "release", "w32", "w32release", "nostd"]
 if os.environ.get("C19_CONFIGS"):       # sensitivity experiments only: a subset of the builds
     CONFIGS = os.environ["C19_CONFIGS"].split(",")
 
-LEVEL_TEXT = ("Machine-checked Coq theorems (97, coq/props/C19.v). WIRE FORMATS (round 2): the word->byte encoder of convert.rs, modelled for "
+LEVEL_TEXT = ("Machine-checked Coq theorems (120, coq/props/C19.v). WIRE FORMATS (round 2): the word->byte encoder of convert.rs, modelled for "
               "an arbitrary WORD_BYTES = k, writes the shortest little-endian byte string of the VALUE and the byte->word decoder returns "
               "the little-endian value for every k, so the binary encodings of UBig/IBig and of the float/rational structs are identical "
               "for 64-, 32- and 16-bit words; decode(encode x) = x; every byte string is rejected or decoded to a canonical value, the "
@@ -63,32 +81,53 @@ LEVEL_TEXT = ("Machine-checked Coq theorems (97, coq/props/C19.v). WIRE FORMATS 
               "the source thresholds incl. the slice-by-slice Toom-3, squares, cubes, powers, + and - (C01); DivRem/Div/Rem/ConstDivisor "
               "with every kernel transcribed (C02); & | ^ and_not, shifts, bit queries on magnitudes and IBig (C09); Display/in_radix, "
               "the three parsers, LE/BE bytes and chunks (C07); the modular ring incl. pow (C13); sqrt_rem with the Karatsuba kernel "
-              "(C12); IBig->f32/f64 (C06). The runs the oracle evaluates (Serde/WordRuns.v: build the representation of the build's "
-              "word size, run the word-level as-is model, read the value) are each proved equal to their word-size-free specification "
-              "for EVERY w >= 8. ARCHITECTURE: the cfg_if! chain of integer/src/arch/mod.rs, the per-architecture mod.rs/word.rs and "
-              "generic/add.rs are regenerated into coq/gen/ArchGen.v on every run; for EVERY set of cfg values the selected Word is "
-              "16/32/64 bits (DoubleWord twice that), force_bits=N selects N bits, and the portable add_with_carry/sub_with_borrow are "
-              "the primitives of C01's model. STD / NO_STD: the only differing code is the log2 estimator; ilog (three loops), nth_root "
-              "(Newton), FBig comparison and FBig +/- are proved for ANY (sound) estimate, hence identical / same contract in both "
-              "builds; log2_bounds itself is judged as bounds per build. TEXT FORMS (serde_json): Display + from_str_with_radix_prefix "
-              "of UBig/IBig round trip and are word-size independent; RBig text n[/d] round trips and every accepted text decodes to "
-              "lowest terms; FBig/Repr text round trips for every finite normal-form value outside one exactly characterised class "
-              "(open finding) and for the infinities. The value-level half is tied by running one case file through five builds "
+              "(C12); IBig->f32/f64 (C06). The runs the oracle evaluates (Serde/WordRuns.v, WordRuns2.v: build the representation of the "
+              "build's word size, run the word-level as-is model, read the value) are each proved equal to their word-size-free "
+              "specification for EVERY w >= 8; round 4 adds gcd, gcd_ext, nth_root and ilog with the dispatch of gcd_ops.rs / root_ops.rs / "
+              "log.rs transcribed per word size (small = two words, Word or DoubleWord second operand, primitive gcd on the Word / "
+              "DoubleWord type, Lehmer on w-bit words with the double-word guess from 300 words on, max_exp_in_word, the three ilog loops "
+              "from ANY admissible first guess): whenever two builds answer, they return the same gcd, the same n-th root, the same "
+              "logarithm, and Bezout coefficients of the same gcd. ARCHITECTURE: the cfg_if! chain of integer/src/arch/mod.rs, the "
+              "per-architecture mod.rs/word.rs and generic/add.rs are regenerated into coq/gen/ArchGen.v on every run; for EVERY set of cfg "
+              "values the selected Word is 16/32/64 bits, force_bits=N selects N bits, and the portable add_with_carry/sub_with_borrow are "
+              "the primitives of C01's model. STD / NO_STD: the only differing code is the log2 estimator; ilog, nth_root, FBig comparison "
+              "and FBig +/- are proved for ANY (sound) estimate; round 4: Context::div returns the same digits for ANY pair of digit "
+              "estimates, and what mul / div / sqrt store is in normal form. TEXT FORMS (serde_json): Display + "
+              "from_str_with_radix_prefix of UBig/IBig round trip and are word-size independent; RBig text n[/d] round trips and every "
+              "accepted text decodes to lowest terms; round 4: a lexer model of what serde_json hands to visit_str for an ARBITRARY token "
+              "stream (escapes incl. surrogate pairs, blanks, and the rejection of every token that is not a string - numbers, null, "
+              "booleans, arrays, maps never reach a Visitor of the library; the list of Visitor methods, the deserializer hints, the "
+              "callees of visit_str, the infinity tokens and the escape of the float serializer are regenerated into "
+              "coq/gen/SerdeVisitorsGen.v on every run); the lexer never runs out of fuel, plain strings reach visit_str unchanged, "
+              "serialize-quote-lex-parse round trips for integers and RBig, accepted rationals are canonical; the REPAIRED float text form "
+              "(finite numbers whose digits spell an infinity token get the scale @0) round trips for every finite normal-form value in "
+              "EVERY base 2..36, and for the infinities. The value-level half is tied by running one case file through five builds "
               "(64/32-bit words x debug/release, no_std), judging every answer against word-size-free specifications, running the "
               "word-level models at the word size each build reports, and diffing the builds.")
-LEVEL_NOTE = ("Proved for all inputs: everything listed above. Judged per case against a proved/certified specification in all five builds "
-              "(round 2: only diffed): RBig->f32/f64 (C06 ieee_rne = Flocq), FBig->f32/f64 (C06 ieee_round; two open classes shared with "
-              "C06), exp/ln/powi (C11's certified interval checkers; open class directed_faithful shared with C11). Only compared by the "
-              "run, not proved here: gcd/gcd_ext, nth_root and ilog of the 32-bit build are judged by certificates (unique by theorem) "
-              "but their word-level code is not modelled per word size; float mul/div/sqrt are judged by the rounding contract per build; "
-              "Relaxed text round trip, ftostr/ffromstr and JSON inputs that are not plain strings (escapes, numbers, null) are checked "
-              "by canonical-value tests only; x86/x86_64 add.rs use core::arch intrinsics (listed, not transcribed); NTT tables are dead "
-              "code. Open findings: fbig_json_inf_collision (new: FBig<_,36> 24171 serialises to \"inf\" and comes back as +infinity), "
-              "fbig_to_float_wide_significand / fbig_to_float_subnormal (C06), directed_faithful (C11). force_bits=\"16\" does not "
-              "compile on this host and is not exercised (its selection and word widths are covered by the regenerated table).")
-TECHNIQUE = ("Coq proofs for arbitrary word size (wire formats, word-level runs, corollaries of C01/C02/C06/C07/C09/C12/C13), a regenerated "
-             "architecture table, estimator-independence theorems, text-form round trips + five-configuration correspondence run with "
-             "word-level models evaluated at each build's word size")
+LEVEL_NOTE = ("Proved for all inputs: everything listed above. Judged per case against a proved/certified specification AND compared token "
+              "for token with an as-is model in all five builds: gcd / gcd_ext (incl. the cofactors) / nth_root / ilog through the "
+              "word-level dispatch models at the build's word size (round 3: certificates only); float add/sub/mul/div/sqrt against C03's "
+              "digit-exact models with every Repr::new (round 3: rounding contract only); every JSON token stream against the lexer model "
+              "(round 3: plain strings only); RBig->f32/f64 (C06 ieee_rne = Flocq), FBig->f32/f64 (C06 ieee_round; open class "
+              "fbig_to_float_subnormal shared with C06), exp/ln/powi (C11's certified interval checkers; open class directed_faithful "
+              "shared with C11). Partial correctness only: the Lehmer loops and the Newton / logarithm loops are proved correct whenever "
+              "they answer; their termination is C12's (loop totality theorems), the absence of the model's panic branches inside Lehmer "
+              "is compared by the run. Only compared by the run, not proved here: that two word sizes return the SAME Bezout coefficients "
+              "(proved: coefficients of the same gcd; the run diffs them and compares each with the model); the first guess of ilog "
+              "(f32 arithmetic of the build; the theorem covers every guess); bytes >= 0x80 inside a JSON string are rejected by "
+              "assumption (invalid UTF-8: serde_json; valid non-ASCII: no parser accepts it) and compared by the run; FBig::ftostr / "
+              "ffromstr by canonical value; extreme-exponent float cases are judged after an exponent translation done in the driver; "
+              "x86/x86_64 add.rs use core::arch intrinsics (listed, not transcribed); NTT tables are dead code. Findings of this round: "
+              "fbig_json_inf_collision FIXED (text form escaped), fbig_to_float_wide_significand FIXED by C06's repair 344196e (the debug "
+              "assertion is now a theorem), float_exponent_intermediate_overflow FIXED (sqrt / to_f32 / to_f64 / add / sub / ulp / {:e} "
+              "overflowed on representable operands with representable results: debug builds panicked, release builds returned wrong "
+              "values for sqrt and to_f64), float_exponent_range_unchecked OPEN (the exponent of a product / square / cube / quotient / "
+              "shift that leaves isize panics in builds with overflow checks and wraps silently in release builds). force_bits=\"16\" "
+              "does not compile on this host and is not exercised (its selection and word widths are covered by the regenerated table).")
+TECHNIQUE = ("Coq proofs for arbitrary word size (wire formats, word-level runs incl. gcd/root/log dispatch, corollaries of "
+             "C01/C02/C03/C06/C07/C09/C12/C13), two regenerated fragments (architecture table, serde glue), estimator-independence theorems, "
+             "text-form round trips with a JSON lexer model + five-configuration correspondence run with word-level and digit-exact float "
+             "models evaluated for each build")
 RULE = ("cases = operation x operands: integers from word-count classes {0,1,2,3,4,5,8,T-1,T,T+1 for the size thresholds, counted in "
         "64-bit AND in 32-bit words} x bit patterns x signs for arithmetic/division/bit/radix/byte/gcd/root/log/modular operations; single "
         "multiplication kernels (schoolbook/Karatsuba/Toom-3/dispatch through verif_hooks::mul_kernel) on slices sized at the kernel "
@@ -115,7 +154,7 @@ TRUSTED_BASE = [
 ]
 ASSUMPTIONS = [
     "UBig::from_words / as_words / IBig::from_parts / as_sign_words transport values faithfully in every build (the harness moves values through raw words of the build's own word size)",
-    "isize/usize are 64-bit in all five builds (force_bits changes Word only); float exponents stay within +-2^40 in generated cases",
+    "isize/usize are 64-bit in all five builds (force_bits changes Word only); float exponents stay within +-2^40 in generated cases except the fx / ftof64 cases of round 4, which sit at the ends of the isize range",
     "force_bits=\"16\" is not exercised: it does not compile on this host",
     "serde_json / postcard themselves are trusted as media; only dashu's Serialize/Deserialize implementations are under test",
 ]
@@ -127,6 +166,10 @@ def canon_answer(ans):
         # wb=<bits>: the word size of the answering build (the oracle runs the word-level models at it); len=<la>,<lb>: the
         # slice lengths of kmul in words of that build - both legitimately differ, everything else must not
         ans = " ".join(t for t in ans.split(" ") if not (t.startswith("wb=") or t.startswith("len=")))
+    if ans.startswith("ok xr=1"):
+        # open finding float_exponent_range_unchecked: the product's exponent is out of the range of isize - builds with overflow
+        # checks panic, builds without wrap; the oracle judges each answer against the as-is model of its kind of build
+        return "ok xr=1"
     if ans.startswith("ok bounds"):
         return "ok bounds"          # judged as bounds in each build, legitimately different (std vs table estimator)
     if ans.startswith("ok config"):
@@ -411,11 +454,222 @@ JSON_FLT = ['"0"', '"1.5"', '"-1.5"', '"1e3"', '"1.5e-3"', '"inf"', '"-inf"', '"
             '"1e100"', '"1@5"', '"12.5@-2"', '{"significand":"1","exponent":0,"precision":1}']
 
 
+def json_escape_variant(rng, text):
+    """a JSON token stream around `text` (the bytes visit_str should see when the variant is valid): escapes, blanks, and the
+    ways a string can be malformed.  Returns bytes."""
+    q = rng.below(16)
+    body = []
+    for ch in text.encode():
+        r = rng.below(6)
+        if r == 0 and ch < 128:
+            body += list(("\\u%04x" if rng.chance(1, 2) else "\\u%04X") % ch)   # \uXXXX of either case
+            body = [c if isinstance(c, int) else ord(c) for c in body]
+        elif ch == 0x2F and r == 1:
+            body += [0x5C, 0x2F]                                                 # \/
+        else:
+            body.append(ch)
+    pre = [rng.choice([0x20, 0x0A, 0x09, 0x0D]) for _ in range(rng.below(3))]
+    post = [rng.choice([0x20, 0x0A, 0x09, 0x0D]) for _ in range(rng.below(3))]
+    if q == 0:
+        body.insert(rng.below(len(body) + 1), rng.choice([0x0A, 0x00, 0x1F, 0x09]))           # raw control byte
+    elif q == 1:
+        body[rng.below(len(body) + 1):0] = [0x5C, rng.choice([0x78, 0x61, 0x27, 0x30, 0x55])]  # invalid escape
+    elif q == 2:
+        body[rng.below(len(body) + 1):0] = list(rng.choice([b"\\ud800", b"\\udc00", b"\\ud83d\\u0031", b"\\ud83d\\ude00", b"\\u12", b"\\u00e9", b"\\u0000", b"\\u12g4"]))
+    elif q == 3:
+        body[rng.below(len(body) + 1):0] = list(rng.choice(["\u00e9", "\u0663", "\uff11", "\u2212"]).encode())  # valid UTF-8, not ASCII
+    elif q == 4:
+        body.insert(rng.below(len(body) + 1), rng.choice([0xFF, 0x80, 0xC0, 0xF8]))             # not UTF-8
+    elif q == 5:
+        post += list(rng.choice([b"x", b"1", b'"', b",", b"]", b"\x00"]))                      # trailing characters
+    elif q == 6:
+        return pre + [0x22] + body                                                             # unterminated
+    elif q == 7:
+        body[rng.below(len(body) + 1):0] = list(rng.choice([b"\\n", b"\\t", b"\\\"", b"\\\\", b"\\b", b"\\f", b"\\r"]))  # valid escapes of non-digits
+    return pre + [0x22] + body + [0x22] + post
+
+
+JSON_OTHER = ['12', '-3', '0', '1.5', '1e3', '-0', 'null', 'true', 'false', '[]', '["1"]', '[1]', '{}', '{"significand":"1","exponent":0}',
+              '{"numerator":"1","denominator":"2"}', '', ' ', 'nul', '"', "'12'", '12"', '18446744073709551616', '-9223372036854775809', 'NaN', 'Infinity',
+              '[1,2]', '[1,0,1]', '"\u0031\u0032"', '"\u0069\u006e\u0066"', '"\u002d1"', '"1\/2"', '"-\u0069nf"', '"1\u002e5"', '"1\u00405"']
+
+
+def gen_grl4(rng, tier):
+    """gcd / gcd_ext / ilog / nth_root at the dispatch boundaries of BOTH word sizes: small = two words (64 / 128 bits), a Word
+    or a DoubleWord as the second operand, the double-word Lehmer guess from 300 words on (9600 / 19200 bits)"""
+    op = rng.choice(["gcd", "gcd", "gcdext", "gcdext", "ilog", "ilog", "nthroot"])
+    unit = rng.choice([32, 32, 64])
+    if op in ("gcd", "gcdext"):
+        r = rng.below(6)
+        if r == 0:
+            # both operands from MIN_DWORD_GUESS_LEN words on (in this unit): lehmer_guess_dword
+            la, lb = rng.choice([300, 301, 302, 310]), rng.choice([300, 300, 301, 305])
+            a, b = gen_mag(rng, la, word=unit), gen_mag(rng, lb, word=unit)
+            if rng.chance(1, 2):
+                g = gen_mag(rng, rng.choice([1, 2, 5]), word=unit)
+                a, b = a * g, b * g
+        elif r == 1:
+            la, lb = rng.choice([299, 300, 298]), rng.choice([3, 150, 299, 300])
+            a, b = gen_mag(rng, la, word=unit), gen_mag(rng, lb, word=unit)
+        elif r == 2:
+            # a Word / DoubleWord against a large number
+            a = gen_mag(rng, rng.choice([3, 4, 5, 9, 40]), word=unit)
+            b = rng.choice([0, 1, 2, 3, (1 << 32) - 1, 1 << 32, (1 << 32) + 1, (1 << 64) - 1, 1 << 64, (1 << 64) + 1, (1 << 96) + 7, (1 << 128) - 1,
+                            rng.bits(31) + 1, rng.bits(63) + 1, rng.bits(64) | (1 << 64), rng.bits(127) | (1 << 127)])
+            if rng.chance(1, 3) and b:
+                a = a * b if rng.chance(1, 2) else a - a % b + b * rng.choice([0, 1])
+        elif r == 3:
+            # two small numbers in one unit, one of them large in the other
+            a = rng.bits(rng.choice([60, 64, 65, 96, 127, 128])) + 1
+            b = rng.bits(rng.choice([30, 33, 64, 65, 100, 128])) + 1
+            if rng.chance(1, 3):
+                g = rng.bits(20) + 1
+                a, b = a * g, b * g
+        elif r == 4:
+            # consecutive Fibonacci-like numbers (all quotients 1) and a huge first quotient
+            x, y = 1, 1
+            for _ in range(rng.choice([90, 95, 180, 190, 400])):
+                x, y = x + y, x
+            a, b = (x, y) if rng.chance(1, 2) else (x * (1 << rng.choice([64, 70, 200])) + y, x)
+        else:
+            a, b = gen_mag(rng, rng.choice([3, 4, 6, 8]), word=unit), gen_mag(rng, rng.choice([3, 4, 5, 7]), word=unit)
+        if rng.chance(1, 2):
+            a, b = b, a
+        if a == 0 and b == 0:
+            a = 1
+        if op == "gcd":
+            a, b = a * rng.choice([1, -1]), b * rng.choice([1, 1, -1])
+        return "%s %s %s" % (op, hx(a), hx(b))
+    if op == "ilog":
+        b = rng.choice([3, 5, 7, 10, 10, 36, 255, 257, 65535, 65536, 65537, (1 << 32) - 1, (1 << 32) + 1, (1 << 64) - 1, (1 << 64) + 1,
+                        (1 << 96) + 3, (1 << 127) - 1, (1 << 128) + 1, 10 ** 9, 10 ** 19, 10 ** 20, rng.bits(200) + 2, 1 << 40, 1 << 130, 6 ** 12])
+        k = rng.choice([0, 1, 2, 3, 5, 9, 10, 19, 20, 21, 38, 39, 40, 77, 100, 250])
+        if b.bit_length() * k > 12000:
+            k = 3
+        x = rng.choice([b ** k, b ** k - 1, b ** k + 1, b ** k * (b - 1), rng.bits(b.bit_length() * k + 1) + 1, b, b - 1, b + 1, 1])
+        return "ilog %s %s" % (hx(max(x, 1)), hx(b))
+    a = gen_mag(rng, rng.choice([1, 2, 3, 4, 5, 8]), word=unit)
+    if rng.chance(1, 2):
+        r = gen_mag(rng, rng.choice([1, 2, 3]), word=unit)
+        nn = rng.choice([2, 2, 3, 5])
+        return "nthroot %s %x" % (hx(r ** nn + rng.choice([0, -1, 1])), nn)
+    return "nthroot %s %x" % (hx(a), rng.choice([2, 2, 3, 4, 7, 64]))
+
+
+def gen_ring4(rng, tier):
+    """prepared divisors: division by a ConstDivisor whose top word has / has no leading zeros (in 64- and 32-bit words), residue
+    rings with normalising shift 0 and operands whose word counts add up to at most the length of the modulus"""
+    unit = rng.choice([32, 64, 64])
+    lm = rng.choice([1, 2, 3, 3, 4, 5, 8, 17, 33])
+    m = gen_mag(rng, lm, word=unit)
+    q = rng.below(4)
+    if q == 0:
+        m |= 1 << (unit * lm - 1)                         # top bit set: shift 0
+    elif q == 1:
+        m = (m >> rng.choice([1, 7, 31, 33, unit - 1])) or 1   # leading zeros in the top word
+    elif q == 2:
+        m = (1 << (unit * lm)) - rng.choice([1, 3, 59, 189])
+    m = m or 1
+    op = rng.choice(["cdivrem", "cdivrem", "modmul", "modsqr", "modpow"])
+    if op == "cdivrem":
+        la = rng.choice([0, 1, lm, lm, lm + 1, 2 * lm, 2 * lm + 1, 3 * lm + 2])
+        a = gen_mag(rng, la, word=unit) if la else rng.choice([0, 1])
+        r = rng.below(5)
+        if r == 0:
+            a = m * gen_mag(rng, max(1, la - lm), word=unit) + rng.choice([0, 1, m - 1])
+        elif r == 1:
+            a = m * ((1 << (unit * rng.choice([1, 2, lm]))) - 1) + (m - 1)     # quotient words all ones
+        return "cdivrem %s %s" % (hx(a * rng.choice([1, 1, -1])), hx(m))
+    # small residues: len(x) + len(y) <= len(m)
+    lx = rng.choice([0, 1, 1, max(1, lm // 2), max(1, lm - 1), lm, lm + 2])
+    ly = rng.choice([1, max(1, lm - lx), max(1, lm // 2), lm])
+    x = gen_mag(rng, lx, word=unit) if lx else 0
+    y = gen_mag(rng, ly, word=unit)
+    if rng.chance(1, 4):
+        x = m - rng.choice([1, 2])
+    if rng.chance(1, 3):
+        x = -x
+    if op == "modmul":
+        return "modmul %s %s %s" % (hx(m), hx(x), hx(y))
+    if op == "modsqr":
+        return "modsqr %s %s" % (hx(m), hx(x))
+    return "modpow %s %s %s" % (hx(m), hx(x), hx(rng.choice([0, 1, 2, 3, 4, 5, 16, 17, 65537, rng.bits(12)])))
+
+
+IMAX, IMIN = (1 << 63) - 1, -(1 << 63)
+
+
+def gen_fx(rng, tier):
+    """float operations with exponents at the ends of the isize range (release vs debug: overflow checks): products whose
+    exponents do / do not add up within isize, sums of operands further apart than isize::MAX, square roots next to both ends,
+    base-2 floats next to isize::MAX into f64 / f32"""
+    bt, b = rng.choice([("a", 10), ("a", 10), ("2", 2), ("10", 16), ("3", 3), ("24", 36)])
+    mode = rng.choice(MODES)
+    p = rng.choice([1, 2, 3, 5, 20])
+
+    def sig(nd):
+        v = rng.bits(rng.choice([2, 8, 30, 70])) % b ** nd
+        while v % b == 0:
+            v += 1
+        return v
+
+    ends = [IMAX, IMAX - 1, IMAX - 2, IMAX - 40, IMIN, IMIN + 1, IMIN + 2, IMIN + 41, 1 << 62, (1 << 62) + 1, -(1 << 62), -(1 << 62) - 1,
+            (1 << 62) - 1, 0, 1, -1, 17, -40]
+    op = rng.choice(["mul", "mul", "add", "sub", "sqrt", "sqrt", "tof"])
+    if op == "tof":
+        s = rng.choice([1, 3, (1 << 52) + 1, (1 << 53) - 1, (1 << 24) - 1, rng.bits(40) | 1]) * rng.choice([1, -1])
+        e = rng.choice([IMAX, IMAX - 1, IMAX - 52, IMAX - 53, IMAX - 54, IMAX - 60, IMIN + 1, IMIN + 60, 1 << 62, -(1 << 62), 1024, 971, -1074, -1075, -1130])
+        return "ftof64 2 %s %x %s %s" % (mode, abs(s).bit_length() + rng.choice([0, 3]), hx(s), hx(e))
+    s1 = sig(p) * rng.choice([1, -1])
+    s2 = sig(p) * rng.choice([1, -1])
+    e1, e2 = rng.choice(ends), rng.choice(ends)
+    if op == "mul":
+        if rng.chance(1, 3):
+            e2 = rng.choice([IMAX - e1, IMAX - e1 + 1, IMIN - e1, IMIN - e1 - 1, IMAX - e1 - 3])   # the sum at the very edge
+            e2 = max(IMIN, min(IMAX, e2))
+        return "fx mul %s %s %x %s %s %s %s" % (bt, mode, p, hx(s1), hx(e1), hx(s2), hx(e2))
+    if op == "sqrt":
+        s1 = abs(sig(rng.choice([1, p, 2 * p, 2 * p + 1, 3 * p + 2])))
+        return "fx sqrt %s %s %x %s %s" % (bt, mode, p, hx(s1), hx(e1))
+    # + and -: the larger exponent stays 40 below the top so that a carry still fits
+    e1, e2 = min(e1, IMAX - 40), min(e2, IMAX - 40)
+    if rng.chance(1, 3):
+        e2 = max(IMIN, min(IMAX - 40, e1 + rng.choice([0, 1, -1, p, -p - 1, 2 * p + 3])))
+    return "fx %s %s %s %x %s %s %s %s" % (op, bt, mode, p, hx(s1), hx(e1), hx(s2), hx(e2))
+
+
+def gen_json4(rng, tier):
+    ty = rng.choice(["ubig", "ibig", "rbig", "relaxed", "fbig"])
+    if rng.chance(1, 3):
+        t = rng.choice(JSON_OTHER).encode()
+    else:
+        v = rng.choice([0, 1, 12, 255, rng.bits(40), rng.bits(130)]) * (rng.choice([1, -1]) if ty != "ubig" else 1)
+        if ty in ("ubig", "ibig"):
+            text = rng.choice(["%d" % v, "%d" % v, "0x%x" % abs(v), "+%d" % abs(v), "1_000", "0b101", "-", ""])
+        elif ty in ("rbig", "relaxed"):
+            text = rng.choice(["%d/%d" % (v, rng.bits(10) + 1), "%d" % v, "6/4", "-6/8", "1/0", "0/7", "0x10/0x4", "1/-2"])
+        else:
+            text = rng.choice(["%d" % v, "1.5", "-1.5e3", "inf", "-inf", "1@5", "12.5@-2", "0.001", "1_0.5", "inf@0", "-inf@0", "Inf", "+inf", "1e", "."])
+        t = bytes(json_escape_variant(rng, text))
+    if ty == "fbig":
+        bt, b = rng.choice(BASES)
+        return "dej_fbig %s %s %s" % (bt, rng.choice(MODES), xb(t))
+    return "dej_%s %s" % (ty, xb(t))
+
+
 def gen_cases(rng, tier, n):
     out = ["config", "mulparams"]
     while len(out) < n:
-        k = rng.below(108)
-        if k >= 106:
+        k = rng.below(127)
+        if k >= 124:
+            out.append(gen_fx(rng, tier))
+        elif k >= 118:
+            out.append(gen_json4(rng, tier))
+        elif k >= 113:
+            out.append(gen_ring4(rng, tier))
+        elif k >= 108:
+            out.append(gen_grl4(rng, tier))
+        elif k >= 106:
             out.append(gen_ftof(rng))
         elif k >= 104:
             out.append(gen_qtof_tie(rng))
